@@ -1,8 +1,10 @@
 """C02 — STAR files read back to the same blocks, columns, rows and values (DESIGN.md section 4, C02).
 
 Five case streams (field `kind`):
-  write      list of tables -> real Starfile.write (keywords with a default left out in ~30 %) -> file text (independent tokenizer +
-             byte compare with the Lean `printStar`) -> real Starfile.read -> compared with the tables (the statement, evaluated
+  write      list of tables (30 %: permuted / reversed / repeated / string / gapped row labels) -> real Starfile.write (keywords with a
+             default left out in ~30 %) -> file text (independent tokenizer + byte compare with the Lean `printStar`; every float cell:
+             the Lean checker `round6Cell` decides "equal after rounding to 6 decimals" on the token in exact rational arithmetic) ->
+             real Starfile.read (20 %: through the constructor Starfile(path)) -> compared with the tables (the statement, evaluated
              directly, incl. integer / float / text typing of what comes back) and with the Lean `readStar` of the same text
   rewrite    cross-call state: two or three write/read rounds in one process on the SAME path (same shape and byte length with other
              values / unrelated tables / the same caller-owned list object again); every read judged against the tables of its write
@@ -22,22 +24,25 @@ PROP = "C02"
 COUNT = {"quick": 700, "thorough": 9000, "search": 4000}
 PARALLEL = True
 PRECISION = 6  # documented default of Starfile.write(float_precision=6); Props/C02 proves Gen.floatPrecision = 6
-HUGE = 1.7976931348623157e302  # |v|*1e6 overflows binary64 above this
+HUGE = 1.7976931348623157e302  # the smallest double v for which v*1e6 overflows binary64 (its predecessor times 1e6 is still finite)
 
 RULE = ("write stream (with, in a third of the cases, a `comments` argument: per block None or 0..3 comment lines incl. empty, padded, '#', 'loop_', "
         "'data_x', '_rlnFake #1'; in half of all write/read cases also Starfile.read(data_id=i) with i in -n-1..n and in 40% "
         "get_frame_and_comments/get_specifier_id with a present, duplicated or absent block name, on the same file; each of the keywords "
         "number_columns / specifiers / comments LEFT OUT of the call in ~30% so that the signature defaults True / ['data']*n / None run): "
-        "1..4 tables (1..200 rows, an empty table only last; 1..30 columns) of int64 / float64 / text columns, "
+        "1..4 tables (1..200 rows, an empty table only last; 1..30 columns) of int64 / float64 / text columns, in 30% of the cases with non-default row labels on every table "
+        "(permuted as after sort_values, reversed, repeated as after pd.concat, strings, gaps as after remove_feature, constant): the file must hold the rows in the order of the table; "
+        "in 20% the tables are read back through the constructor Starfile(path) instead of Starfile.read; in 15% specifiers / comments are handed over as tuples; "
         "names from data_, data_particles, data_optics, data_general, data_stopgap_*, number_columns on/off; float cells from "
         "integers-as-floats, 1..9 decimals, values that change under round(6), half-way cases at the 7th decimal, tiny, 1e15..1e22, random mantissas up to 1e40, "
         "+-0; text cells printable ASCII or non-ASCII word characters (U+200B, U+180E, U+FEFF, letters, ...) without str.isspace characters/#, not starting with _, never empty, at least one cell per text column "
-        "that is not a number (letters), some cells number-like (1e5, .5, nan, inf, 1_0) beside it, some longer than the 10-wide pad. "
+        "that is not a number (letters), some cells number-like (1e5, .5, nan, inf, 1_0) beside it, some longer than the 10-wide pad, 3% of the free text tokens 63..300 characters long (corpus: 1500 characters, row lines over 4 kB). "
+        "Value clause on the file: every float cell's token goes to the Lean checker round6Cell (exact rational arithmetic: a decimal literal with at most 6 fractional digits within 0.5e-6 + 3 ulp of the written double), cross-checked by the harness's own Fraction arithmetic. "
         "rewrite stream (G2): 2..3 write/read rounds on one path in one process: same shape + all cells <= 10 characters (identical byte length, same second) with other values (60%), "
         "unrelated tables (20%), the same caller-owned list object written again with the other header style (20%); the caller's tables, list, specifiers and comments are compared before/after every call. "
-        "remove stream: Starfile.remove_lines(path, positions, output_file or not, data_specifier None/present/absent, number_columns given or left out) on a written file of exactly-parsed cells; positions "
+        "remove stream: Starfile.remove_lines(path, positions as a list, (30%) a numpy integer array or (15%) a tuple, output_file or not, data_specifier None/present/absent, number_columns given or left out) on a written file of exactly-parsed cells; positions "
         "non-negative, distinct or repeated, 6% beyond the last row; a block other than the last keeps a row. "
-        "read stream: grammar-generated texts (see module docstring); 2% of the later blocks directly follow the previous block's rows and 40% of the texts whose last block is empty and unfollowed end "
+        "read stream: grammar-generated texts (see module docstring; integer tokens beyond 64 bits in 3% of the integer cells; 20% read through Starfile(path)); 2% of the later blocks directly follow the previous block's rows and 40% of the texts whose last block is empty and unfollowed end "
         "without final newline -- both layouts are INSIDE the statement (blank/comment lines `may` separate blocks; `with or without final newline`) and the reader raises on them: open findings C02-K4 / C02-K3. "
         "malformed stream: one damage per text; a damaged text the independent tokenizer still reads as a STAR text of the statement is judged as such (spec), any other is OUTSIDE the quantifier "
         "(e.g. `1 2` / `3` under two labels: not `data blocks with one loop each` whose rows an independent tokenizer finds -- the reader drops the short row silently, theorem short_last_row_dropped; "
@@ -47,11 +52,11 @@ RULE = ("write stream (with, in a third of the cases, a `comments` argument: per
         "distinct = distinct case content (sha1 of the JSON)")
 ASSUMPTIONS = [
     "Python text-mode I/O: open(path,'w') writes the given characters with LF line ends; open(path,'r').read() may or may not turn CRLF into LF -- the model reads the characters as they are on disk (CRLF included) and theorem crlf_normalisation proves both readings equal (also run on every CRLF case); a CR not followed by LF is outside the quantifier",
-    "the shortest round-trip digit string and decimal exponent of a rounded float64 cell are those of numpy's Dragon4 (format_float_scientific(unique=True)); their layout by Python's repr (fixed/exponent form, thresholds 1e16 and 1e-4, '.0', two-digit exponent, inf, nan) and str(int) are modelled in Lean (floatRepr, intStr) and the produced file is compared byte for byte",
+    "the shortest round-trip digit string and decimal exponent of a rounded float64 cell are those of numpy's Dragon4 (format_float_scientific(unique=True)); their layout by Python's repr (fixed/exponent form, thresholds 1e16 and 1e-4, '.0', two-digit exponent, inf, nan) and str(int) are modelled in Lean (floatRepr, intStr; theorem written_cell_value: the cell laid out from any digit string denotes digits*10^(decpt-len)) and the produced file is compared byte for byte",
     "DataFrame.round(6) = numpy.round(v, 6) per float cell (harness computes numpy.round itself; byte compare of the file on every case)",
-    "float(repr(x)) = x and int(str(n)) = n (probed on every run); pandas.to_numeric turns a column into numbers iff every cell is a decimal literal [+-]?(d+[.d*]|.d+)([eE][+-]?d+)? or [+-]?(inf|infinity) in any letter case -- not nan (model `isNumTok`, proved equal to the grammar `NumTok` and to hold for every cell the writer prints for a number; probed on every run on the token pool incl. all spellings; integer tokens beyond 64 bits are not generated)",
-    "pandas.to_numeric(token) is within 2 ulp of the correctly rounded float(token) (1 ulp off observed, e.g. '3.3e+100' -> 3.2999999999999997e+100) and numpy.round(v, 6) = rint(v*1e6)/1e6 within 0.5e-6 + 1.5 ulp of v (both probed on 8000 values up to 1e60 on every run); the statement's `equal after rounding to 6 decimals` is judged as |file - written| <= 0.5e-6 + 1.5 ulp on the file text (float(token) is correctly rounded) and |read - written| <= 0.5e-6 + 3.5 ulp on the frames read back",
-    "pandas.to_numeric gives an integer dtype exactly for columns of [+-]?d+ tokens within 64 bits (model `isIntTok`; probed on every run)",
+    "float(repr(x)) = x and int(str(n)) = n (probed on every run); pandas.to_numeric turns a column into numbers iff every cell is a decimal literal [+-]?(d+[.d*]|.d+)([eE][+-]?d+)? or [+-]?(inf|infinity) in any letter case -- not nan (model `isNumTok`, proved equal to the grammar `NumTok` and to hold for every cell the writer prints for a number; probed on every run on the token pool incl. all spellings; integer tokens beyond 64 bits come back as Python ints in an object column and are numbers all the same; a column mixing a token of the unsigned range 2^63..2^64-1 with a negative integer is refused by to_numeric and stays text -- proposed finding C02-K5, generated only once it is listed)",
+    "pandas.to_numeric(token) is within 4 ulp of the correctly rounded float(token): measured on pandas 3.0.6 with 400 000 random 17-digit mantissas per band -- at most 1 ulp off below 1e9, 2 ulp for 1e9..1e47 (e.g. '3.3e+100' -> 3.2999999999999997e+100), 3 ulp for a few mantissas per million in 1e47..1e60 and above 1e120; bound = worst measured + 1 ulp; probed on every run on 7000 values of the magnitudes the generator writes (<= 1e40 and its listed constants). numpy.round(v, 6) = rint(v*1e6)/1e6 within 0.5e-6 + 1.5 ulp of v (probed likewise). The statement's `equal after rounding to 6 decimals` is judged on the FILE TEXT in exact rational arithmetic by the Lean checker `round6Cell` (theorem round6Ok_iff: the token is a decimal literal, its exactly parsed value d has at most 6 fractional digits -- d*10^6 is an integer -- and |d - written| <= 0.5e-6 + 3 ulp(written); 3 = 1 for the product v*1e6, 2*(1/2 + 1/2) for the quotient and the shortest digits, whose result may lie in the next binade; worst excess seen in 400 000 draws: 1.5 ulp; the harness repeats the evaluation with Python's Fraction on every cell) and on the frames read back as |read - written| <= 0.5e-6 + 5.5 ulp",
+    "pandas.to_numeric gives an integer dtype exactly for columns of [+-]?d+ tokens (int64, uint64 for 2^63..2^64-1 without a negative cell, Python ints beyond 64 bits; model `isIntTok`; probed on every run)",
     "str.isspace() = model `isWs` on ALL code points (theorem isWs_is_str_isspace; the driver lists the model's set and the harness compares it with str.isspace over range(0x110000) on every run); str.split() splits exactly there; files are UTF-8 (an encoding error of the environment is reported as harness-or-library-raised, not as a spec finding)",
     "remove stream: a cell written by Starfile.write, read by pandas.to_numeric and written again prints the same characters (cells restricted to <= 15 significant digits; probed on every run)",
 ]
@@ -93,77 +98,196 @@ def _consts(node):
 
 
 class _Alpha(ast.NodeTransformer):
-    """rename the local variables of one function to v0, v1, ... in order of first binding (arguments first), drop the
-    docstring and the message arguments of `raise X(...)` / `warnings.warn(...)`: the dump then depends on the statements,
-    operators, constants, attribute / keyword names and called functions, not on how locals are called or errors worded"""
+    """rename the local variables of one function to v0, v1, ... BY BINDING OCCURRENCE, in order of first binding (arguments
+    first): a plain local gets one number at its first binding; the arguments of a nested def / lambda get fresh numbers of
+    their own (scoped to that def), and EVERY `_` discard (argument or assignment target) is a variable of its own -- so a pure
+    rename (also of a `_` to a real name, or of one of two `_`) gives the same dump. Dropped: docstrings, type annotations
+    (arguments, return, `x: T = v` is treated as `x = v`, a bare `x: T` disappears) and the message arguments of
+    `raise X(...)` / `warnings.warn(...)`. Spelling variants folded: `len(x) == 0` -> `not x`, `len(x) > 0` / `!= 0` -> `x`, negations pushed inward (De Morgan; `not x == y` -> `x != y`).
+    The dump then depends on the statements, operators, constants, attribute / keyword names and called functions, not on how
+    locals are called, annotated or errors worded. `names` (optional): documented name of the k-th binding (used by `_canon`);
+    `keep_messages`: leave raise / warn arguments in place."""
 
-    def __init__(self, fn):
-        self.map = {}
-        for a in fn.args.posonlyargs + fn.args.args + fn.args.kwonlyargs + ([fn.args.vararg] if fn.args.vararg else []) + ([fn.args.kwarg] if fn.args.kwarg else []):
-            self.map.setdefault(a.arg, f"v{len(self.map)}")
+    def __init__(self, fn, names=None, keep_messages=False):
+        self.names, self.keep_messages = names, keep_messages
+        self.count = 0
+        self.map = {}          # name -> number (function scope)
+        self.orig = []         # number -> identifier in the source (for diagnostics)
+        self.scopes = []       # overlays of nested defs being visited
+        self.cur_us = None     # number of the most recent `_` binding
+        for a in self._args(fn):
+            a._aid = self._fresh(a.arg) if a.arg == "_" else self._shared(a.arg)
         self._bind(fn)
+        self.scopes, self.cur_us = [], None
+
+    @staticmethod
+    def _args(fn):
+        a = fn.args
+        return a.posonlyargs + a.args + ([a.vararg] if a.vararg else []) + a.kwonlyargs + ([a.kwarg] if a.kwarg else [])
+
+    def _fresh(self, ident):
+        self.orig.append(ident); self.count += 1
+        return self.count - 1
+
+    def _shared(self, ident):
+        for sc in reversed(self.scopes):
+            if ident in sc:
+                return sc[ident]
+        if ident not in self.map:
+            self.map[ident] = self._fresh(ident)
+        return self.map[ident]
 
     def _bind(self, node):
         for ch in ast.iter_child_nodes(node):
             if isinstance(ch, ast.Name) and isinstance(ch.ctx, ast.Store):
-                self.map.setdefault(ch.id, f"v{len(self.map)}")
-            elif isinstance(ch, (ast.FunctionDef, ast.AsyncFunctionDef)):
-                self.map.setdefault(ch.name, f"v{len(self.map)}")
-                for a in ch.args.args:
-                    self.map.setdefault(a.arg, f"v{len(self.map)}")
+                ch._aid = self._fresh("_") if ch.id == "_" else self._shared(ch.id)
+            elif isinstance(ch, (ast.FunctionDef, ast.AsyncFunctionDef, ast.Lambda)):
+                if not isinstance(ch, ast.Lambda):
+                    ch._nid = self._shared(ch.name)
+                ov = {}
+                for a in self._args(ch):
+                    a._aid = self._fresh(a.arg)
+                    if a.arg != "_":
+                        ov[a.arg] = a._aid
+                ch._overlay = ov
+                self.scopes.append(ov); self._bind(ch); self.scopes.pop()
+                continue
             elif isinstance(ch, ast.ExceptHandler) and ch.name:
-                self.map.setdefault(ch.name, f"v{len(self.map)}")
+                ch._nid = self._shared(ch.name)
             self._bind(ch)
 
+    def _render(self, k):
+        return self.names[k] if self.names is not None and k < len(self.names) else f"v{k}"
+
     def visit_Name(self, n):
-        return ast.copy_location(ast.Name(id=self.map.get(n.id, n.id), ctx=n.ctx), n)
+        if hasattr(n, "_aid"):
+            if n.id == "_":
+                self.cur_us = n._aid
+            return ast.copy_location(ast.Name(id=self._render(n._aid), ctx=n.ctx), n)
+        if n.id == "_" and self.cur_us is not None:
+            return ast.copy_location(ast.Name(id=self._render(self.cur_us), ctx=n.ctx), n)
+        for sc in reversed(self.scopes):
+            if n.id in sc:
+                return ast.copy_location(ast.Name(id=self._render(sc[n.id]), ctx=n.ctx), n)
+        if n.id in self.map:
+            return ast.copy_location(ast.Name(id=self._render(self.map[n.id]), ctx=n.ctx), n)
+        return n
 
     def visit_arg(self, n):
-        return ast.copy_location(ast.arg(arg=self.map.get(n.arg, n.arg), annotation=None), n)
+        if hasattr(n, "_aid") and n.arg == "_":
+            self.cur_us = n._aid
+        return ast.copy_location(ast.arg(arg=self._render(n._aid) if hasattr(n, "_aid") else n.arg, annotation=None), n)
+
+    def _visit_def(self, n):
+        self.scopes.append(getattr(n, "_overlay", {}))
+        n = self.generic_visit(n)
+        self.scopes.pop()
+        return n
 
     def visit_FunctionDef(self, n):
+        nid = getattr(n, "_nid", None)
+        n = self._visit_def(n)
+        n.returns = None
+        if nid is not None:
+            n.name = self._render(nid)
+        return n
+
+    def visit_Lambda(self, n):
+        return self._visit_def(n)
+
+    def visit_ExceptHandler(self, n):
+        nid = getattr(n, "_nid", None)
         n = self.generic_visit(n)
-        n.name = self.map.get(n.name, n.name)
+        if nid is not None:
+            n.name = self._render(nid)
+        return n
+
+    def visit_AnnAssign(self, n):
+        if n.value is None:
+            return None
+        return self.visit(ast.copy_location(ast.Assign(targets=[n.target], value=n.value), n))
+
+    def visit_Compare(self, n):
+        n = self.generic_visit(n)
+        if len(n.ops) == 1 and isinstance(n.left, ast.Call) and isinstance(n.left.func, ast.Name) and n.left.func.id == "len" and len(n.left.args) == 1 \
+                and not n.left.keywords and isinstance(n.comparators[0], ast.Constant) and n.comparators[0].value == 0 and type(n.comparators[0].value) is int:
+            if isinstance(n.ops[0], ast.Eq):
+                return ast.copy_location(ast.UnaryOp(op=ast.Not(), operand=n.left.args[0]), n)
+            if isinstance(n.ops[0], (ast.Gt, ast.NotEq)):
+                return n.left.args[0]
+        return n
+
+    _NEG = {ast.Eq: ast.NotEq, ast.NotEq: ast.Eq, ast.Is: ast.IsNot, ast.IsNot: ast.Is, ast.In: ast.NotIn, ast.NotIn: ast.In}
+
+    def visit_UnaryOp(self, n):
+        """De Morgan: `not (a or b)` -> `not a and not b`, `not (a and b)` -> `not a or not b`, `not (x == y)` -> `x != y` (also `is`, `in`):
+        the same truth value in the same evaluation order"""
+        n = self.generic_visit(n)
+        if isinstance(n.op, ast.Not):
+            o = n.operand
+            if isinstance(o, ast.BoolOp):
+                flip = ast.And() if isinstance(o.op, ast.Or) else ast.Or()
+                return ast.copy_location(ast.BoolOp(op=flip, values=[self.visit_UnaryOp(ast.UnaryOp(op=ast.Not(), operand=v)) for v in o.values]), n)
+            if isinstance(o, ast.Compare) and len(o.ops) == 1 and type(o.ops[0]) in self._NEG:
+                return ast.copy_location(ast.Compare(left=o.left, ops=[self._NEG[type(o.ops[0])]()], comparators=o.comparators), n)
         return n
 
     def visit_Raise(self, n):
-        if isinstance(n.exc, ast.Call):
+        if isinstance(n.exc, ast.Call) and not self.keep_messages:
             return ast.copy_location(ast.Raise(exc=ast.Call(func=n.exc.func, args=[], keywords=[]), cause=None), n)
         return self.generic_visit(n)
 
     def visit_Call(self, n):
-        if ast.unparse(n.func) in ("warnings.warn", "warn"):
+        if ast.unparse(n.func) in ("warnings.warn", "warn") and not self.keep_messages:
             return ast.copy_location(ast.Call(func=n.func, args=[], keywords=[]), n)
         return self.generic_visit(n)
 
 
-def _dump(fn, skip=0):
+def _is_docstring(st):
+    return isinstance(st, ast.Expr) and isinstance(st.value, ast.Constant) and isinstance(st.value.value, str)
+
+
+def _default_if(st):
+    """`if <name> is None: <name> = <expr>` -> (<name>, <expr>) else None"""
+    if isinstance(st, ast.If) and not st.orelse and len(st.body) == 1 and isinstance(st.body[0], ast.Assign) and len(st.body[0].targets) == 1 \
+            and isinstance(st.test, ast.Compare) and len(st.test.ops) == 1 and isinstance(st.test.ops[0], ast.Is) and isinstance(st.test.left, ast.Name) \
+            and isinstance(st.test.comparators[0], ast.Constant) and st.test.comparators[0].value is None \
+            and isinstance(st.body[0].targets[0], ast.Name) and st.body[0].targets[0].id == st.test.left.id:
+        return st.test.left.id, st.body[0].value
+    return None
+
+
+def _sort_defaults(body):
+    """a leading run of independent `if a is None: a = ...` statements in a canonical order (their order does not matter)"""
+    k = 0
+    while k < len(body) and _default_if(body[k]):
+        k += 1
+    run = [_default_if(st) for st in body[:k]]
+    names = {n for n, _ in run}
+    if k > 1 and len(names) == k and not any(isinstance(x, ast.Name) and x.id in names for _, v in run for x in ast.walk(v)):
+        return sorted(body[:k], key=ast.unparse) + body[k:]
+    return body
+
+
+def _dump(fn, skip=0, upto=None):
     """normalised dump of a whole function body (statement kinds + expressions), see `_Alpha`"""
     fn = copy.deepcopy(fn)
-    sts = [st for st in fn.body if not (isinstance(st, ast.Expr) and isinstance(st.value, ast.Constant) and isinstance(st.value.value, str))]
-    fn.body = sts
-    al = _Alpha(fn)
-    fn = ast.fix_missing_locations(al.visit(fn))
-    return ";".join(re.sub(r"\s+", "", ast.unparse(st).replace("\n", ";")) for st in fn.body[skip:])
+    fn.body = [st for st in fn.body if not _is_docstring(st)]
+    fn = ast.fix_missing_locations(_Alpha(fn).visit(fn))
+    body = _sort_defaults(fn.body[:upto] if upto is not None else fn.body)
+    return ";".join(re.sub(r"\s+", "", ast.unparse(st).replace("\n", ";")) for st in body[skip:])
 
 
 def _canon(fn, names):
-    """the function with its locals renamed to the DOCUMENTED names (`names[k]` for the k-th local in order of first binding):
+    """the function with its locals renamed to the DOCUMENTED names (`names[k]` for the k-th binding occurrence, see `_Alpha`):
     the anchors below match on these names, so a renaming of locals in the source does not matter"""
     fn = copy.deepcopy(fn)
-    al = _Alpha(fn)
-    back = {f"v{k}": n for k, n in enumerate(names)}
-    al.map = {old: back.get(v, v) for old, v in al.map.items()}
-    keep_raise, keep_call = _Alpha.visit_Raise, _Alpha.visit_Call
-    class K(_Alpha):
-        def __init__(self): self.map = al.map
-        def visit_Raise(self, n): return self.generic_visit(n)
-        def visit_Call(self, n): return self.generic_visit(n)
-    return ast.fix_missing_locations(K().visit(fn))
+    fn.body = [st for st in fn.body if not _is_docstring(st)]
+    return ast.fix_missing_locations(_Alpha(fn, names=names, keep_messages=True).visit(fn))
 
 
 WRITE_LOCALS = ['frames', 'path', 'specifiers', 'comments', 'number_columns', 'float_precision', 'i', 'f', 'file', 'write_with_number', 'name', 'number',
-                'write_without_number', '_', 'format_value', 'value', 'frame', 'specifier', 'comment', 'stopgap', 'write_function', 'c', 'index', 'column', 'row']
+                'write_without_number', 'name', '_', 'format_value', 'value', 'frame', 'specifier', 'comment', 'stopgap', 'write_function', 'c', 'index', 'column', 'row']
 
 
 def _signature(fn):
@@ -367,9 +491,20 @@ def translate(src):
                 return _fstring(n.args[0], ["specifier"], "specifier line")
         raise A("Starfile.write: file.write(f'\\n{specifier}\\n\\n')")
 
+    frame_stmts = []
+
+    def rows_loop():
+        """the row loop `for row in frame.itertuples(index=False)`: what is iterated (order of the rows = order of the table, the
+        index left out) as normalised source"""
+        for st in file_writes().body:
+            if isinstance(st, ast.For) and ast.unparse(st.target) == "row":
+                return ast.unparse(st.iter).replace(" ", "")
+        raise A("Starfile.write: for row in frame.itertuples(index=False)")
+
     def skeleton():
         """order of the writes of one block (comments branch left out)"""
         out = []
+        del frame_stmts[:]
         for st in file_writes().body:
             t = ast.unparse(st).replace(" ", "")
             if t.startswith("ifcommentisnotNone"):
@@ -382,7 +517,9 @@ def translate(src):
                 out.append("STOPGAP:" + repr(ast.literal_eval(st.body[0].value.args[0])))
             elif t.startswith("forrowinframe.itertuples(index=False):"):
                 out.append("ROWS")
-            elif t.startswith(("frame=", "stopgap=", "write_function=")):
+            elif t.startswith("frame="):
+                frame_stmts.append(t)  # every re-binding of the table inside the block loop (sorting, de-duplication, ... would show here)
+            elif t.startswith(("stopgap=", "write_function=")):
                 continue
             else:
                 out.append("?:" + t[:60])
@@ -459,6 +596,9 @@ def translate(src):
     lp = src.anchor("write:label-plain", lambda: fpieces("write_without_number", ["name"]))
     sl = src.anchor("write:specifier-line", spec_line)
     sk = src.anchor("write:block-skeleton", skeleton)
+    fst = src.anchor("write:frame-statements", lambda: list(frame_stmts) if sk is not None else (_ for _ in ()).throw(A("Starfile.write: block loop")))
+    rlp = src.anchor("write:rows-loop", rows_loop)
+    tkb = src.anchor("tokenize:body", lambda: _dump(tok_fn()))
     cb = src.anchor("write:comments-branch", comments_branch)
     cv = src.anchor("tokenize:comment-value", comment_value)
     co = src.anchor("read:comments-order", comments_order)
@@ -479,8 +619,12 @@ def translate(src):
         k = next((i for i, st in enumerate(fn.body) if isinstance(st, ast.With)), None)
         if k is None:
             raise A("Starfile.write: with open(path, 'w') as file")
-        head = copy.deepcopy(fn); head.body = fn.body[:k]
-        return _dump(head)
+        # dumped from the source function (not the canonical copy): numbering by binding occurrence, the two independent
+        # `if x is None: x = ...` defaults in a canonical order (swapping them is harmless)
+        raw = src.find(rel, "Starfile.write")
+        body = [st for st in raw.body if not _is_docstring(st)]
+        k = next((i for i, st in enumerate(body) if isinstance(st, ast.With)), None)
+        return _dump(raw, upto=k)
 
     def default_specifier():
         for n in ast.walk(wfn()):
@@ -515,7 +659,7 @@ def translate(src):
     sep = sep or "\n"; cch = cch or "#"; ppf = ppf or "_"; lkw = lkw if lkw is not None else "loop_"; order = order or ["PROPERTY", "LOOP", "LITERAL"]
     drop = 1 if drop is None else drop; prec = 6 if prec is None else prec; cf = cf or ["", "<", 10]; cs = "\t" if cs is None else cs
     rend = "\n" if rend is None else rend; sg = "stopgap" if sg is None else sg; cond = cond or ""; ln = ln or ["_", " #", "\n"]; lp = lp or ["_", "\n"]
-    sl = sl or ["\n", "\n\n"]; sk = sk or []
+    sl = sl or ["\n", "\n\n"]; sk = sk or []; fst = fst or []; rlp = rlp or ""; tkb = tkb or ""
     loop_line, stop_extra, block_end, label_start, label_call = "loop_\n", "\n", "\n", 1, "write_function(column,index)"  # documented values (used when the skeleton is not recognised)
     shape_ok = False
     try:
@@ -556,6 +700,8 @@ def loopLine : List Char := {_chars(loop_line)}
 def stopgapExtra : List Char := {_chars(stop_extra)}
 def blockEnd : List Char := {_chars(block_end)}
 def labelStart : Nat := {label_start}
+def frameStatements : List String := {core.lean_str_list(fst)}
+def rowsLoop : String := {core.lean_str(rlp)}
 -- comments argument of Starfile.write; comment values / data_id / specifier lookup of the reader
 def commentLine : List (List Char) := {lst(cb[0])}
 def commentsEnd : List Char := {_chars(cb[1])}
@@ -573,6 +719,7 @@ def writeDefaults : String := {core.lean_str(wdef)}
 def defaultSpecifier : List Char := {_chars(dsp)}
 def numberColumnsDefault : Bool := {"true" if ncd else "false"}
 def removeLinesNumberColumnsDefault : Bool := {"true" if ncd2 else "false"}
+def body_tokenize : String := {core.lean_str(tkb)}
 -- normalised whole-body dumps of the parser half, the read loop, the numeric conversion and remove_lines (locals renamed v0, v1, ...; messages dropped)
 {chr(10).join(f"def body_{q.split('.')[-1].lstrip('_')} : String := {core.lean_str(b)}" for q, b in bodies)}
 end CryoCat.Gen.C02
@@ -709,6 +856,8 @@ def _text_token(rng):
     alphabet = "abcdfghijklmopqrstuvwxyzABCDFGHIJKLMOPQRSTUVWXYZ"
     extra = "0123456789_./-:@+=,;!$%&()*<>?[]^{}|~'\"\\`neEN"
     n = rng.choice([1, 2, 3, 5, 8, 9, 10, 11, 12, 20, 40])
+    if rng.random() < 0.06:  # long tokens (paths): around the usual buffer sizes, up to 300 characters
+        n = rng.choice([63, 64, 65, 100, 127, 128, 129, 200, 255, 256, 257, 300])
     s = rng.choice(alphabet) + "".join(rng.choice(alphabet + extra) for _ in range(n - 1))
     if s.lower() in ("inf", "infinity", "nan") or s == "loop_":
         s += "q"
@@ -766,6 +915,30 @@ def _tame_float(rng):
     return rng.choice([0.0, -0.0, 1e-05, 0.5, -0.25, 1e-06, 123.456])
 
 
+def _index_labels(rng, n):
+    """row labels of a table a user naturally hands to Starfile.write (`Motl(df)` keeps them, `remove_feature` leaves gaps,
+    `sort_values` permutes them, `pd.concat` repeats them); the file must hold the rows in the order of the TABLE"""
+    k = rng.choice(["permuted", "permuted", "reversed", "duplicated", "concat", "string", "gaps", "constant"])
+    if k == "permuted":
+        out = list(range(n)); rng.shuffle(out)
+    elif k == "reversed":
+        out = list(range(n - 1, -1, -1))
+    elif k == "duplicated":
+        out = [rng.randint(0, max(0, n // 2)) for _ in range(n)]
+    elif k == "concat":
+        m = rng.randint(0, n)
+        out = list(range(m)) + list(range(n - m))
+    elif k == "string":
+        out = [f"p{rng.randint(0, 3 * n)}" for _ in range(n)]
+    elif k == "gaps":
+        out = sorted(rng.sample(range(3 * n + 1), n))
+        if rng.random() < 0.5:
+            out.reverse()
+    else:
+        out = [7] * n
+    return out
+
+
 def gen_write(rng, tier, plain=False, shape=None):
     """plain: cells of at most 10 characters that every reader parses exactly (used by the re-write / remove_lines streams, where
     the same shape must give the same file size); shape: (name, cols, types, nrows) per block to copy"""
@@ -804,9 +977,15 @@ def gen_write(rng, tier, plain=False, shape=None):
         omit.append("comments")
     if omit:
         case["omit"] = omit
+    if rng.random() < 0.15:
+        case["tuple_args"] = True  # specifiers / comments as tuples
     _selection(rng, case, _eff_names(case))
     if plain:
         return case
+    if rng.random() < 0.3:  # H3: non-default row labels (permuted, reversed, repeated, strings, gaps) on every table of the case
+        case["index"] = [_index_labels(rng, len(b["data"][0]) if b["data"] else 0) for b in blocks]
+    if rng.random() < 0.2:  # top-level entry point: the tables are read back through the constructor `Starfile(path)`
+        case["ctor"] = True
     k = rng.random()
     if k < 0.012:  # class of open finding C02-K1: a text cell that is the reserved word
         b = rng.choice(blocks)
@@ -819,7 +998,8 @@ def gen_write(rng, tier, plain=False, shape=None):
         fc = [j for j, t in enumerate(b["types"]) if t == "float" and b["data"][j]]
         if fc:
             j = rng.choice(fc)
-            b["data"][j][rng.randrange(len(b["data"][j]))] = f2b(rng.choice([1e305, -1.7e308, 1.8e302, -2e303]))
+            # 1.7976931348623157e302 is the smallest double whose product with 1e6 overflows (its predecessor ...155e302 still rounds fine)
+            b["data"][j][rng.randrange(len(b["data"][j]))] = f2b(rng.choice([1e305, -1.7e308, 1.8e302, -2e303, 1.7976931348623157e302, -1.7976931348623157e302]))
     return case
 
 
@@ -884,6 +1064,11 @@ def gen_remove(rng, tier):
         elif idx and rng.random() < 0.1:
             idx = idx + [idx[0]]  # a position listed twice
     case = dict(kind="remove", base=base, idx=idx, specifier=spec, output=rng.random() < 0.8)
+    k = rng.random()
+    if k < 0.3:
+        case["idx_array"] = True  # positions handed over as a numpy integer array (e.g. from numpy.where)
+    elif k < 0.45 and idx:
+        case["idx_tuple"] = True  # ... or as a (non-empty) tuple
     if rng.random() < 0.7:  # G1: number_columns of remove_lines left out in 30 %
         case["number_columns2"] = rng.random() < 0.5
     return case
@@ -920,8 +1105,26 @@ def _skip_line(rng, comment_ok=True):
     return _pad(rng) + "#" + rng.choice(["", " comment", " version 30001", "# double", " _rlnFake #1", " loop_", " data_x", "\tx y  z ", " 1 2 3"])
 
 
+def _listed(fid):
+    """is `fid` an open entry of known_findings.json? (a proposed finding's input class is generated only once it is listed, so that
+    the check is green on the unchanged tree before and after the integrator adds the entry)"""
+    try:
+        import json
+        data = json.load(open(os.path.join(os.path.dirname(os.path.dirname(os.path.dirname(os.path.abspath(__file__)))), "known_findings.json")))
+        return any(f.get("id") == fid and f.get("status") == "open" for f in data.get("findings", []))
+    except Exception:
+        return False
+
+
+_K5_LISTED = _listed("C02-K5")
+
+
 def _read_token(rng, kind):
     if kind == "int":
+        if rng.random() < 0.03:  # beyond 64 bits (either sign): pandas keeps them as Python ints
+            return rng.choice(["18446744073709551616", "-9223372036854775809", "123456789012345678901234567890", "+36893488147419103232", "-18446744073709551616"])
+        if _K5_LISTED and rng.random() < 0.04:  # the unsigned 64-bit range: class of finding C02-K5 when a negative integer shares the column
+            return rng.choice(["9223372036854775808", "18446744073709551615", "+9223372036854775808"])
         return rng.choice([str(rng.randint(-500, 5000)), "0", "+7", "0012", str(rng.randint(-10 ** 9, 10 ** 9))])
     if kind == "float":
         k = rng.random()
@@ -993,6 +1196,8 @@ def gen_read(rng, tier):
     if not last["row_lines"] and not last["post"] and not trailing and rng.random() < 0.6:
         final_nl = True  # else: the text ends on the last label line of an empty last block without final newline -> class C02-K3
     case = dict(kind="read", blocks=blocks, trailing=trailing, final_newline=final_nl, eol=rng.choice(["lf", "lf", "crlf"]))
+    if rng.random() < 0.2:
+        case["ctor"] = True
     _selection(rng, case, [b["x"]["name"] for b in blocks])
     return case
 
@@ -1076,6 +1281,21 @@ def gen_malformed(rng, tier):
     return dict(kind="malformed", damage=dmg, text="\n".join(lines), eol=base["eol"])
 
 
+def corpus():
+    """the hand-written cases of corpus/C02/*.json; a case marked `"only_if_listed": "<finding id>"` (the reproducer of a PROPOSED
+    known finding) runs only once that finding is an open entry of known_findings.json"""
+    import glob, json
+    out = []
+    root = os.path.join(os.path.dirname(os.path.dirname(os.path.dirname(os.path.abspath(__file__)))), "corpus", PROP)
+    for p in sorted(glob.glob(os.path.join(root, "*.json"))):
+        d = json.load(open(p))
+        for c in (d if isinstance(d, list) else [d]):
+            fid = c.get("only_if_listed")
+            if fid is None or _listed(fid):
+                out.append({k: v for k, v in c.items() if k != "only_if_listed"})
+    return out
+
+
 def generate(rng, tier, n):
     for i in range(n):
         k = rng.random()
@@ -1104,24 +1324,38 @@ def _frame_obs(df):
             kinds.append("int"); data.append([int(v) for v in s])
         elif len(s) and pd.api.types.is_float_dtype(s.dtype):
             kinds.append("float"); data.append([f2b(float(v)) for v in s])
+        elif len(s) and s.dtype == object and all(type(v) is int for v in s):
+            # integer tokens beyond 64 bits: pandas.to_numeric returns Python ints in an object column -- numbers all the same
+            kinds.append("int"); data.append([int(v) for v in s])
         else:
             kinds.append("text"); data.append([v if isinstance(v, str) else f"<{type(v).__name__}>{v}" for v in s])
     return dict(cols=cols, kinds=kinds, nrows=int(df.shape[0]), data=data, dtypes=[str(df.iloc[:, j].dtype) for j in range(df.shape[1])])
 
 
-def _read_obs(path):
+def _read_obs(path, ctor=False):
     from cryocat.starfileio import Starfile
     try:
-        frames, specifiers, comments = Starfile.read(path)
-    except IOError as e:
-        msg = str(e)
-        m = re.match(r"Expected TokenType\.(\w+) but (got|there are)", msg)
-        if m:
-            kind = f"expected:{m.group(1)}:{'got' if m.group(2) == 'got' else 'empty'}"
-        elif msg.startswith("Expected a specifier or an end of token"):
-            kind = "trailing"
+        if ctor:  # the constructor is the top-level entry point most callers use
+            sf = Starfile(path)
+            frames, specifiers, comments = sf.frames, sf.specifiers, sf.comments
         else:
-            kind = "other"
+            frames, specifiers, comments = Starfile.read(path)
+    except IOError as e:
+        # H1: WHICH refusal it is comes from where it was raised and with what (the raising function of cryocat/starfileio.py and
+        # its first two arguments: the token queue and the expected token type), never from the wording of the message
+        msg, kind, tb, last = str(e), "other", e.__traceback__, None
+        while tb is not None:
+            if "/cryocat/" in tb.tb_frame.f_code.co_filename:
+                last = tb.tb_frame
+            tb = tb.tb_next
+        if last is not None:
+            code, loc = last.f_code, last.f_locals
+            args = [loc.get(n) for n in code.co_varnames[:code.co_argcount]]
+            if code.co_name in ("check", "consume") and len(args) == 2 and isinstance(args[0], list) and hasattr(args[1], "name"):
+                kind = f"expected:{args[1].name}:{'empty' if len(args[0]) == 0 else 'got'}"
+            elif code.co_name == "read":
+                kind = "trailing"
+        del tb, last
         return dict(error=kind, message=msg[:200])
     except Exception as e:  # not an IOError of the parser: the reader crashed
         import traceback
@@ -1167,7 +1401,7 @@ def _sel_obs(path, case):
 def _frames_of(case):
     import numpy as np, pandas as pd
     frames = []
-    for b in case["blocks"]:
+    for bi, b in enumerate(case["blocks"]):
         d = {}
         for c, t, col in zip(b["cols"], b["types"], b["data"]):
             if t == "int":
@@ -1175,8 +1409,9 @@ def _frames_of(case):
             elif t == "float":
                 d[c] = np.array([b2f(x) for x in col], dtype=np.float64)
             else:
-                d[c] = pd.Series(list(col), dtype=object) if case.get("object_dtype") else list(col)
-        frames.append(pd.DataFrame(d, columns=b["cols"]))
+                d[c] = np.array(list(col), dtype=object) if case.get("object_dtype") else list(col)
+        idx = (case.get("index") or [None] * len(case["blocks"]))[bi]
+        frames.append(pd.DataFrame(d, columns=b["cols"]) if idx is None else pd.DataFrame(d, columns=b["cols"], index=list(idx)))
     return frames
 
 
@@ -1199,6 +1434,8 @@ def _do_write(frames, path, case):
         kw["comments"] = coms
     if "number_columns" not in omit:
         kw["number_columns"] = case["number_columns"]
+    if case.get("tuple_args"):  # H3: the per-block arguments handed over as tuples instead of lists
+        kw = {k: (tuple(v) if isinstance(v, list) else v) for k, v in kw.items()}
     objs = list(frames)
     snap = [f.copy(deep=True) for f in frames]
     specs0, coms0 = list(specs), copy.deepcopy(coms)
@@ -1214,7 +1451,7 @@ def _write_round(case, path, frames=None):
     frames = _frames_of(case) if frames is None else frames
     args = _do_write(frames, path, case)
     text = open(path, "rb").read().decode("utf-8")
-    return dict(text=text, read=_read_obs(path), sel=_sel_obs(path, case), args=args), frames
+    return dict(text=text, read=_read_obs(path, bool(case.get("ctor"))), sel=_sel_obs(path, case), args=args), frames
 
 
 def _returned_obs(ret):
@@ -1251,8 +1488,10 @@ def run_impl(case):
             try:
                 with warnings.catch_warnings(record=True) as w:
                     warnings.simplefilter("always")
-                    ret = Starfile.remove_lines(p, list(case["idx"]), **kw)
-                rem["warned"] = any("not found" in str(x.message) for x in w)
+                    import numpy as np
+                    pos = np.array(case["idx"], dtype=np.int64) if case.get("idx_array") else tuple(case["idx"]) if case.get("idx_tuple") and case["idx"] else list(case["idx"])  # H3: array-like argument
+                    ret = Starfile.remove_lines(p, pos, **kw)
+                rem["warned"] = any(issubclass(x.category, Warning) and "cryocat" in (x.filename or "") for x in w)  # by origin, never by wording
                 rem["returned"] = None if ret is None else _returned_obs(ret)
                 if os.path.exists(q):
                     rem["text"] = open(q, "rb").read().decode("utf-8")
@@ -1270,7 +1509,7 @@ def run_impl(case):
             return obs
         with open(p, "wb") as f:
             f.write(raw_text(case).encode("utf-8"))
-        return dict(read=_read_obs(p), sel=_sel_obs(p, case))
+        return dict(read=_read_obs(p, bool(case.get("ctor"))), sel=_sel_obs(p, case))
 
 
 # ------------------------------------------------------------------ model requests
@@ -1339,6 +1578,9 @@ def _write_requests(case, obs):
     if isinstance(obs, dict) and "text" in obs:
         reqs.append(dict(op="read", text=obs["text"]))
         reqs += _sel_requests(case, obs["text"])
+        cells = _r6_cells(obs["text"], case["blocks"])
+        if cells:  # the value clause on the file text, decided by the Lean checker in exact rational arithmetic
+            reqs.append(dict(op="round6", cells=[[v, tok] for _, _, _, v, tok in cells]))
     return reqs
 
 
@@ -1367,7 +1609,44 @@ def requests(case, obs):
 
 # ------------------------------------------------------------------ judgement
 ULP_ROUND = 1.5   # numpy.round(v, 6) = rint(v * 1e6) / 1e6: the product costs up to one ulp of v (half an ulp of v*1e6), the quotient half an ulp
-ULP_PARSE = 2.0   # pandas.to_numeric: within 2 ulp of the correctly rounded value (recorded assumption, probed)
+# pandas.to_numeric is NOT correctly rounded. Measured (pandas 3.0.6, 400 000 random 17-digit mantissas per band, repr of round(v, 6)):
+# |to_numeric(repr(x)) - x| <= 1 ulp for |x| < 1e9, <= 2 ulp for 1e9 .. 1e47 and 1e60 .. 1e120, 3 ulp for a few mantissas per million in
+# 1e47 .. 1e60 and above 1e120 (e.g. -1.8235254309850092e+47 -> ...086e+47). The bound used is the worst measured one plus one ulp
+# of margin; the probe below draws only from the magnitudes the generator produces (random mantissas up to 1e40, the listed constants
+# 3.3e100 / 1e300), where 2 ulp is the worst ever seen -- so the probe cannot flake on a mantissa the generator never writes.
+ULP_PARSE = 4.0
+
+
+WRITER_ULPS = 3   # = Lean `writerUlps`: product v*1e6 (<= 1 ulp of v), quotient (half an ulp of the result), shortest digits (within half an ulp of the result); the result may be in the next binade: 1 + 2*(1/2 + 1/2)
+DEC_RE = re.compile(r"[+-]?(\d+\.?\d*|\.\d+)([eE][+-]?\d+)?\Z")
+
+
+def _round6_exact(bits, tok):
+    """the harness's own evaluation of the Lean `round6Cell` (exact rational arithmetic): the token is a decimal literal, has at most
+    6 fractional digits and lies within 0.5e-6 + 3 ulp(v) of the written binary64 value v"""
+    from fractions import Fraction
+    v = b2f(bits)
+    if not math.isfinite(v) or not DEC_RE.match(tok):
+        return False
+    d = Fraction(tok)
+    return (d * 10 ** PRECISION).denominator == 1 and abs(d - Fraction(v)) <= Fraction(1, 2 * 10 ** PRECISION) + WRITER_ULPS * Fraction(math.ulp(v))
+
+
+def _r6_cells(text, blocks):
+    """the float cells of a written file as (block, column, row, bit pattern of the written value, token in the file), or None
+    when the file is not laid out like the tables (reported by `_judge_file_text`)"""
+    ind = indep_parse(text)
+    if isinstance(ind, str) or len(ind) != len(blocks):
+        return None
+    out = []
+    for bi, (fb, b) in enumerate(zip(ind, blocks)):
+        n = len(b["data"][0]) if b["data"] else 0
+        if fb["cols"] != b["cols"] or len(fb["rows"]) != n:
+            return None
+        for j, (t, col) in enumerate(zip(b["types"], b["data"])):
+            if t == "float":
+                out += [(bi, j, i, v, fb["rows"][i][j]) for i, v in enumerate(col)]
+    return out
 
 
 def _close_after_round(orig, got, parse_ulps):
@@ -1384,8 +1663,8 @@ def _inf_like(t):
 
 
 def _same_number(a, b):
-    """pandas.to_numeric is not always correctly rounded (e.g. '3.3e+100' -> 3.2999999999999997e+100): allow 2 ulp"""
-    return a == b or (math.isfinite(a) and math.isfinite(b) and abs(a - b) <= 2 * math.ulp(a))
+    """pandas.to_numeric is not always correctly rounded (e.g. '3.3e+100' -> 3.2999999999999997e+100): allow ULP_PARSE ulp (derivation there)"""
+    return a == b or (math.isfinite(a) and math.isfinite(b) and abs(a - b) <= ULP_PARSE * math.ulp(a))
 
 
 def _cmp_frames_with_tokens(read, blocks, clause_prefix, kind):
@@ -1440,9 +1719,19 @@ def _raised(obs, spec_clause):
     return [dict(kind="spec", clause=spec_clause, detail=msg)]
 
 
-def _judge_file_text(text, blocks, names):
-    """(S1) a written text, through the independent tokenizer, against the tables"""
+def _judge_file_text(text, blocks, names, r6=None):
+    """(S1) a written text, through the independent tokenizer, against the tables. `r6`: the answers of the Lean checker `round6Cell`
+    for the float cells (in the order of `_r6_cells`): the value clause is then decided in exact rational arithmetic by the verified
+    checker; without them (files written by remove_lines, re-runs inside classify) by the float tolerance of `_close_after_round`"""
     out = []
+    cells = _r6_cells(text, blocks) if r6 is not None else None
+    verdict = {}
+    if cells is not None and isinstance(r6, list) and len(r6) == len(cells):
+        for (bi, j, i, v, tok), ok in zip(cells, r6):
+            verdict[(bi, j, i)] = ok
+            if ok != _round6_exact(v, tok):
+                out.append(dict(kind="corr", clause="round6-checker-vs-harness", detail=f"block {bi} column {blocks[bi]['cols'][j]} row {i}: value {b2f(v)!r} token {tok!r}: Lean round6Cell says {ok}, the harness's exact evaluation {not ok}"))
+                break
     ind = indep_parse(text)
     if isinstance(ind, str):
         return [dict(kind="spec", clause="file-not-a-star-text", detail=f"independent tokenizer: {ind}")]
@@ -1458,7 +1747,7 @@ def _judge_file_text(text, blocks, names):
             for i, v in enumerate(col):
                 tok = fb["rows"][i][j]
                 try:
-                    good = (tok == v) if t == "text" else (int(tok) == v) if t == "int" else _close_after_round(b2f(v), float(tok), 0)
+                    good = (tok == v) if t == "text" else (int(tok) == v) if t == "int" else verdict[(bi, j, i)] if (bi, j, i) in verdict else _close_after_round(b2f(v), float(tok), 0)
                 except ValueError:
                     good = False
                 if not good:
@@ -1528,7 +1817,10 @@ def _judge_write(case, obs, resps):
         return _raised(obs, "write-raises")
     blocks, names = case["blocks"], _eff_names(case)
     given = "specifiers" not in case.get("omit", [])
-    s1 = _judge_file_text(obs["text"], blocks, names)   # (S1) the written text, through the independent tokenizer
+    r6 = resps[-1].get("ok") if resps and isinstance(resps[-1], dict) and "ok" in resps[-1] else None
+    if r6 is None and _r6_cells(obs["text"], blocks):
+        out.append(dict(kind="corr", clause="round6-no-answer", detail=str(resps[-1])[:200] if resps else "no responses"))
+    s1 = _judge_file_text(obs["text"], blocks, names, r6)   # (S1) the written text, through the independent tokenizer; float cells by the Lean checker
     rd = obs["read"]
     s2 = _judge_frames(rd, blocks, names)                # (S2) read back: the statement itself
     for f in s1 + s2:
@@ -1648,6 +1940,8 @@ def _frame_matches_block(fr, mb):
         return False
     for j in range(len(mb["cols"])):
         numeric = bool(mb["rows"]) and mb["kinds"][j]
+        if numeric and fr["kinds"][j] == "text" and _k5_column([r[j] for r in mb["rows"]]):
+            continue  # class of finding C02-K5: reported (spec) by the full read of the same file, not a second time for the selection
         if numeric != (fr["kinds"][j] in ("int", "float")):
             return False
         if not numeric and fr["data"][j] != [r[j] for r in mb["rows"]]:
@@ -1789,13 +2083,17 @@ def stats(case, obs, resps):
         d["remove.specifier"] = "default(block 0)" if case["specifier"] is None else ("absent" if case["specifier"] not in _eff_names(case["base"]) else "given")
         d["remove.rows-removed"] = _bucket(len(set(case["idx"])), [0, 1, 3, 10])
         d["remove.output_file"] = case["output"]
+        d["remove.positions-as"] = "numpy array" if case.get("idx_array") else "tuple" if case.get("idx_tuple") and case["idx"] else "list"
         d["remove.number_columns"] = case.get("number_columns2", "left out")
         d["remove.outcome"] = obs.get("remove", {}).get("error", "warned" if obs.get("remove", {}).get("warned") else "ok") if "error" not in obs else "write-raised"
         d["remove.comments-fed-back"] = "none" if case["base"].get("comments") is None else "some"
         return d
     if k == "write":
         d["write.keywords-left-out"] = case.get("omit", []) or ["none"]
+        d["write.specifiers/comments-as"] = "tuples" if case.get("tuple_args") else "lists"
         d["write.blocks"] = len(case["blocks"])
+        d["write.row-labels"] = "default RangeIndex" if case.get("index") is None else ["sorted-unique" if list(i) == sorted(set(i)) else ("repeated" if len(set(i)) < len(i) else "unsorted") for i in case["index"] if i is not None]
+        d["write.read-through"] = "Starfile(path)" if case.get("ctor") else "Starfile.read(path)"
         d["write.rows"] = [_bucket(len(b["data"][0]) if b["data"] else 0, [0, 1, 10, 60, 200]) for b in case["blocks"]]
         d["write.cols"] = [_bucket(len(b["cols"]), [1, 4, 10, 30]) for b in case["blocks"]]
         d["write.coltypes"] = [t for b in case["blocks"] for t in b["types"]]
@@ -1806,6 +2104,10 @@ def stats(case, obs, resps):
         d["write.comments-arg"] = "none" if case.get("comments") is None else [("None" if c is None else f"{len(c)} lines") for c in case["comments"]]
         d["write.float-cell-form"] = [c[0] if c[0] in ("nan", "inf") else ("exponent" if c[2] > 16 or c[2] < -3 else "fixed")
                                       for b in _model_blocks(case)[:1] for r in b["rows"][:3] for c in r if isinstance(c, list)]
+        r6 = resps[-1].get("ok") if resps and isinstance(resps[-1], dict) and "ok" in resps[-1] else None
+        d["write.value-clause(round6Cell, float cells)"] = "no float cell / file not laid out" if r6 is None else ("all meet the clause" if all(x is True for x in r6) else "some rejected")
+        d["write.float-cells-checked-exactly"] = _bucket(len(r6 or []), [0, 10, 100, 1000])
+        d["write.longest-text-cell"] = _bucket(max([len(str(v)) for b in case["blocks"] for t, col in zip(b["types"], b["data"]) if t == "text" for v in col] or [0]), [10, 47, 64, 128, 300])
         d["write.long-cell(>10)"] = any(len(str(v)) > 10 for b in case["blocks"] for t, col in zip(b["types"], b["data"]) if t == "text" for v in col)
     else:
         text = render_read(case)
@@ -1848,7 +2150,7 @@ def sample_view(case):
     if case["kind"] == "remove":
         return dict(kind="remove", idx=case["idx"], specifier=case["specifier"], output=case["output"], number_columns2=case.get("number_columns2", "left out"), base=sample_view(case["base"]))
     if case["kind"] == "write":
-        return dict(kind="write", number_columns=case["number_columns"], left_out=case.get("omit", []), comments=case.get("comments"), data_id=case.get("data_id"), specifier=case.get("specifier"),
+        return dict(kind="write", number_columns=case["number_columns"], left_out=case.get("omit", []), row_labels=[(i[:8] if i is not None else None) for i in case["index"]] if case.get("index") else "default", ctor=bool(case.get("ctor")), comments=case.get("comments"), data_id=case.get("data_id"), specifier=case.get("specifier"),
                     blocks=[dict(name=b["name"], cols=b["cols"][:6], types=b["types"][:6], n_rows=len(b["data"][0]) if b["data"] else 0,
                                  first_row=[(b2f(c[0]) if t == "float" else c[0]) for t, c in list(zip(b["types"], b["data"]))[:6] if c]) for b in case["blocks"]])
     return dict(kind=case["kind"], damage=case.get("damage"), eol=case.get("eol"), data_id=case.get("data_id"), specifier=case.get("specifier"), text=render_read(case)[:600])
@@ -1892,11 +2194,16 @@ def shrink(case):
         if "number_columns2" in case:
             yield _without(case, "number_columns2")
         return
-    for key in ("data_id", "specifier", "comments"):
+    for key in ("data_id", "specifier", "comments", "index", "ctor", "tuple_args"):
         if case.get(key) is not None and key in case:
             yield _without(case, key)
     if case["kind"] == "write":
         bs = case["blocks"]
+        ix = case.get("index")
+        if ix is not None:  # default labels on one table at a time
+            for i in range(len(bs)):
+                if ix[i] is not None:
+                    yield dict(case, index=ix[:i] + [None] + ix[i + 1:])
         if case.get("omit"):
             for o in case["omit"]:
                 yield dict(case, omit=[x for x in case["omit"] if x != o])
@@ -1905,6 +2212,8 @@ def shrink(case):
                 c2 = dict(case, blocks=bs[:i] + bs[i + 1:])
                 if case.get("comments") is not None:
                     c2["comments"] = case["comments"][:i] + case["comments"][i + 1:]
+                if ix is not None:
+                    c2["index"] = ix[:i] + ix[i + 1:]
                 yield c2
         if case.get("comments") is not None:
             for i, cs in enumerate(case["comments"]):
@@ -1913,12 +2222,18 @@ def shrink(case):
         for bi, b in enumerate(bs):
             n = len(b["data"][0]) if b["data"] else 0
             rep = lambda nb: dict(case, blocks=bs[:bi] + [nb] + bs[bi + 1:])
+
+            def rows_kept(keep, bi=bi, b=b):
+                c2 = dict(case, blocks=bs[:bi] + [dict(b, data=[[c[i] for i in keep] for c in b["data"]])] + bs[bi + 1:])
+                if ix is not None and ix[bi] is not None:
+                    c2["index"] = ix[:bi] + [[ix[bi][i] for i in keep]] + ix[bi + 1:]
+                return c2
             if n > 1:
                 for lo, hi in ((0, n // 2), (n // 2, n), (0, 1), (n - 1, n)):
-                    yield rep(dict(b, data=[c[lo:hi] for c in b["data"]]))
+                    yield rows_kept(list(range(lo, hi)))
                 if n <= 12:
                     for i in range(n):
-                        yield rep(dict(b, data=[c[:i] + c[i + 1:] for c in b["data"]]))
+                        yield rows_kept([k for k in range(n) if k != i])
             if len(b["cols"]) > 1:
                 for j in range(len(b["cols"])):
                     yield rep(dict(b, cols=b["cols"][:j] + b["cols"][j + 1:], types=b["types"][:j] + b["types"][j + 1:], data=b["data"][:j] + b["data"][j + 1:]))
@@ -1961,7 +2276,24 @@ def shrink(case):
 
 
 # ------------------------------------------------------------------ open known findings
+def _k5_column(toks):
+    """class of the proposed finding C02-K5: a numeric column holding an integer token of the unsigned 64-bit range 2^63 .. 2^64-1
+    together with a negative integer token: pandas.to_numeric gives up on the int64 / uint64 conflict and silently returns the strings"""
+    ints = [int(t) for t in toks if INT_RE.match(t)]
+    return bool(toks) and all(is_num(t) for t in toks) and any(2 ** 63 <= n < 2 ** 64 for n in ints) and any(n < 0 for n in ints)
+
+
 def classify(case, obs, finding):
+    if case["kind"] in ("read", "malformed") and finding["clause"] in ("read-numeric-column-as-text", "read-vs-model-numeric-column-as-text"):
+        # C02-K5 (both the statement's verdict and the disagreement with the statement-faithful model on the same column)
+        m = re.match(r"block (\d+) column (.*?): tokens ", finding.get("detail", ""))
+        ind = indep_parse(render_read(case))
+        if m and not isinstance(ind, str) and int(m.group(1)) < len(ind):
+            b = ind[int(m.group(1))]
+            j = next((j for j, c in enumerate(b["cols"]) if c == m.group(2)), None)
+            if j is not None and _k5_column([r[j] for r in b["rows"]]):
+                return "C02-K5"
+        return None
     if finding.get("kind") != "spec":
         return None
     if case["kind"] in ("read", "malformed"):
@@ -1980,13 +2312,33 @@ def classify(case, obs, finding):
         return None
     cells = [(t, v) for b in case["blocks"] for t, col in zip(b["types"], b["data"]) for v in col]
     has_loop = any(t == "text" and v == "loop_" for t, v in cells)
-    has_huge = any(t == "float" and abs(b2f(v)) > HUGE for t, v in cells)
-    # C02-K1: a text cell equal to the reserved word `loop_` is written verbatim and tokenised as the LOOP keyword on reading
+    # C02-K1: a text cell equal to the reserved word `loop_` is written verbatim and tokenised as the LOOP keyword on reading.
+    # Exact rule: the case holds such a cell, the failure is one a LOOP token in a row can cause, AND the very same case with
+    # every `loop_` cell replaced by the harmless word `l00p_` meets the statement (so a defect elsewhere in the case -- another
+    # block, another cell -- is not hidden behind the known finding: it still fails after the replacement and stays unlisted)
     if has_loop and finding["clause"] in ("file-not-a-star-text", "file-row-count", "readback-raises", "readback-row-count", "readback-block-names") and "error" not in obs:
-        return "C02-K1"
-    # C02-K2: a finite float cell with |v| > 1.797e302 is written as inf/-inf (numpy.round overflows in v*1e6)
-    if has_huge and finding["clause"] in ("file-cell", "readback-number") and re.search(r"'-?inf'|read -?inf", finding.get("detail", "")):
-        return "C02-K2"
+        healed = copy.deepcopy(case)
+        for b in healed["blocks"]:
+            b["data"] = [[("l00p_" if t == "text" and v == "loop_" else v) for v in col] for t, col in zip(b["types"], b["data"])]
+        try:
+            o2 = run_impl(healed)
+            spec2 = [f for f in _judge_file_text(o2["text"], healed["blocks"], _eff_names(healed)) + _judge_frames(o2["read"], healed["blocks"], _eff_names(healed)) if f["kind"] == "spec"]
+            if "specifiers" in healed.get("omit", []):
+                spec2 = [f for f in spec2 if f["clause"] not in ("file-block-names", "readback-block-names")]
+        except Exception:
+            return None
+        return None if spec2 else "C02-K1"
+    # C02-K2: a finite float cell whose product with 1e6 overflows binary64 (|v| >= 1.7976931348623157e302) is written as inf/-inf.
+    # Exact rule: the finding names a float cell of the case (block, column, row) that is such a value and the file / frame holds inf there
+    m = re.match(r"block (\d+) column (.*) row (\d+): ", finding.get("detail", ""))
+    if m and finding["clause"] in ("file-cell", "readback-number"):
+        b = case["blocks"][int(m.group(1))]
+        j = next((j for j, c in enumerate(b["cols"]) if c == m.group(2)), None)
+        i = int(m.group(3))
+        if j is not None and b["types"][j] == "float" and i < len(b["data"][j]):
+            v = b2f(b["data"][j][i])
+            if math.isfinite(v) and math.isinf(abs(v) * 1e6) and re.search(r"file holds '-?inf'|read -?inf\Z", finding["detail"]):
+                return "C02-K2"
     return None
 
 
@@ -2010,7 +2362,8 @@ def probes(rng):
     wrong = []
     for t in toks:
         try:
-            conv = pd.to_numeric(pd.Series([t], dtype=object)); numeric = pd.api.types.is_numeric_dtype(conv.dtype)
+            conv = pd.to_numeric(pd.Series([t], dtype=object))
+            numeric = pd.api.types.is_numeric_dtype(conv.dtype) or (conv.dtype == object and all(type(v) is int for v in conv))  # beyond 64 bits: Python ints
         except (ValueError, TypeError):
             numeric = False
         if numeric != is_num(t):
@@ -2027,25 +2380,26 @@ def probes(rng):
                     ok=all(("a" + chr(n) + "b").split() == (["a", "b"] if chr(n).isspace() else ["a" + chr(n) + "b"]) for n in list(range(0x3100)) + [0xfeff, 0x1f600]), detail=""))
     # G3: integer vs float typing of pandas.to_numeric = the model's isIntTok on number tokens ([+-]?d+ up to 64 bits -> integer dtype)
     wrong = []
-    for t in [t for t in toks if is_num(t)] + ["-0", "+0", "007", "9223372036854775807", "-9223372036854775808"]:
+    for t in [t for t in toks if is_num(t)] + ["-0", "+0", "007", "9223372036854775807", "-9223372036854775808", "9223372036854775808", "18446744073709551615", "18446744073709551616", "-9223372036854775809"]:
         conv = pd.to_numeric(pd.Series([t, t], dtype=object))
-        if pd.api.types.is_integer_dtype(conv.dtype) != (INT_RE.match(t) is not None):
+        if (pd.api.types.is_integer_dtype(conv.dtype) or (conv.dtype == object and all(type(v) is int for v in conv))) != (INT_RE.match(t) is not None):
             wrong.append((t, str(conv.dtype)))
-    out.append(dict(name="pandas.to_numeric gives an integer dtype exactly for columns of [+-]?d+ tokens (model isIntTok)", ok=not wrong, detail=str(wrong[:5])))
+    out.append(dict(name="pandas.to_numeric gives an integer dtype (int64 / uint64, beyond 64 bits Python ints) exactly for columns of [+-]?d+ tokens (model isIntTok)", ok=not wrong, detail=str(wrong[:5])))
     # remove_lines stream: a written cell that is read and written again prints the same characters
     tame = [_tame_float(rng) for _ in range(2000)]
     with np.errstate(all="ignore"):
         again = [str(float(np.round(np.float64(pd.to_numeric(pd.Series([str(v), "0.5"], dtype=object))[0]), PRECISION))) == str(v) and len(str(v)) <= 10 for v in tame]
     out.append(dict(name="tame floats: str(round(to_numeric(str(v)), 6)) == str(v), at most 10 characters", ok=all(again), detail=str([v for v, a in zip(tame, again) if not a][:5])))
     # tolerance of the numeric clause: numpy.round within ULP_ROUND ulp + 0.5e-6 of v, to_numeric within ULP_PARSE ulp of float(token)
-    big = [rng.choice([-1, 1]) * rng.uniform(1, 10) * 10.0 ** rng.randint(-8, 60) for _ in range(4000)] + vals
+    # magnitudes: exactly those of the generator (`_float_value`: random mantissas up to 1e40, plus its listed constants, which are in `vals`)
+    big = [rng.choice([-1, 1]) * rng.uniform(1, 10) * 10.0 ** rng.randint(-8, 40) for _ in range(4000)] + vals
     with np.errstate(all="ignore"):
         rb = [float(np.round(np.float64(v), PRECISION)) for v in big]
     far = [(v, r_) for v, r_ in zip(big, rb) if math.isfinite(r_) and not _close_after_round(v, r_, 0)]
-    out.append(dict(name="numpy.round(v, 6) within 0.5e-6 + 1.5 ulp of v (8000 values, 1e-8 .. 1e60)", ok=not far, detail=str(far[:3])))
+    out.append(dict(name="numpy.round(v, 6) within 0.5e-6 + 1.5 ulp of v (7000 values, 1e-8 .. 1e40 and the generator's constants)", ok=not far, detail=str(far[:3])))
     conv = pd.to_numeric(pd.Series([repr(x) for x in rb if math.isfinite(x)], dtype=object)).tolist()
     far = [(x, c) for x, c in zip([x for x in rb if math.isfinite(x)], conv) if abs(c - x) > ULP_PARSE * math.ulp(x)]
-    out.append(dict(name="pandas.to_numeric(repr(x)) within 2 ulp of x (8000 values)", ok=not far, detail=str(far[:3])))
+    out.append(dict(name="pandas.to_numeric(repr(x)) within 4 ulp of x (7000 values of the generator's magnitudes; worst measured: 2 ulp there, 3 ulp at 1e47..1e60)", ok=not far, detail=str(far[:3])))
     return out
 
 
@@ -2053,19 +2407,25 @@ LEVEL_TEXT = ("Lean 4 theorems about an executable model of Token.tokenize / par
               "data_id) / get_specifier_id / get_frame_and_comments / remove_lines / Starfile.write (incl. the comments argument, the signature defaults, str(int) and the layout of repr(float)) "
               "over character lists, for texts and tables of any size: tokenizeLine_spec + line_tokens + text_tokens (characters -> tokens of any line/text), isWs_is_str_isspace (white space = the whole str.isspace set), "
               "read_any_layout + read_any_layout_comments (every text of the layout grammar is read into exactly its blocks, labels, row tokens and comments), statement_layout_wider_than_reader "
-              "(the statement's layout class minus two constraints = what the reader accepts; witnesses of the open findings C02-K3 / C02-K4), "
+              "(Doc.Ok = the statement's layout class + two constraints) + reader_rejects_outside_sepOk + reader_accepts_iff_separated (within the statement's layout class the reader accepts a text IFF it is separated: every text of the classes of the open findings C02-K3 / C02-K4 is rejected, any number of blocks), "
               "star_roundtrip / typed_roundtrip / default_specifiers_roundtrip (readStar (printStar tables) = tables for any number of blocks, both header styles), written_text_is_laid_out, "
               "numeric_grammar (the column-typing recogniser = the declarative number grammar), writer_cells_numeric + written_column_typing (a written column comes back "
               "numeric iff it was written from numbers), writer_cells_integer + written_int_column_typing (integer-typed iff written from integers), crlf_normalisation (CRLF text = LF text for the reader), comments_never_change_tables, "
-              "written_comments_keep_tables, written_comments_read_back, data_id_selects, written_block_by_data_id, specifier_id_first, get_frame_and_comments_spec, remove_lines_rows + remove_lines_roundtrip, the "
-              "witnesses loop_cell_breaks_roundtrip (open finding C02-K1), nan_cell_reads_as_text, short_last_row_dropped and empty_block_not_last_breaks; the model is tied to the source by 43 "
-              "regenerated literals/write-order/signature/whole-body anchors insensitive to renamed locals (tokenizer_literals_documented, writer_literals_documented, comments_and_selection_documented, "
-              "signature_defaults_documented, parser_documented, remove_lines_documented) "
+              "written_comments_keep_tables, written_comments_read_back, data_id_selects, written_block_by_data_id, specifier_id_first, get_frame_and_comments_spec, remove_lines_rows + remove_lines_roundtrip + "
+              "remove_lines_is_dropAt + remove_lines_reads_back (the executed removeLines = dropAt on the blocks read, every outcome), the VALUE clause on the read side in exact rational arithmetic: decimal_token_value "
+              "(decValue = the value of the literal for every token of the grammar, defined exactly on isDecTok), written_cell_value (str(int) denotes the integer; the cell repr lays out from any digit string and "
+              "decimal-point position denotes digits*10^(decpt-len), whichever form), round6Ok_iff (the checker run on every written float cell decides Round6Spec), written_value_meets_clause, round6Cell_documented "
+              "(float_precision read from the source), the witnesses loop_cell_breaks_roundtrip (open finding C02-K1), inf_cell_never_meets_clause (C02-K2), uint64_with_negative_is_numeric (proposed C02-K5), "
+              "nan_cell_reads_as_text, short_last_row_dropped and empty_block_not_last_breaks; the model is tied to the source by 46 "
+              "regenerated literals/write-order/signature/whole-body anchors insensitive to renamed locals, added type annotations and reworded messages (tokenizer_literals_documented, tokenizer_body_documented, "
+              "writer_literals_documented, writer_rows_documented, comments_and_selection_documented, signature_defaults_documented, parser_documented, remove_lines_documented); the cell format spec "
+              "(fill, alignment, width) and float_precision are READ by the model (padCell, round6Cell) "
               "and by an exact differential run: file text byte for byte vs the Lean writer fed with typed cells (integers, Dragon4 digit strings, texts) and comments, "
               "Starfile.read on the raw (CRLF) characters vs readStarC vs an independent line tokenizer, integer/float/text dtypes, comments, data_id / specifier selections, repeated rounds on one path, remove_lines, incl. the parser's error "
               "kind on damaged texts")
-LEVEL_NOTE = ("trusted: Lean kernel; translator anchors; harness line tokenizer; the digit string of a float (numpy.round + shortest round-trip digits) and the value "
-              "pandas.to_numeric assigns to a number token are outside the proofs: the harness evaluates the numeric clause directly and probes the assumptions; "
-              "which tokens are numbers and how numbers are printed is inside the model")
+LEVEL_NOTE = ("trusted: Lean kernel; translator anchors; harness line tokenizer; the digit string of a float (numpy.round + shortest round-trip digits) is outside the proofs but what the "
+              "statement asks of it is not: the token found in the real file is parsed exactly and checked against the written double by the verified checker round6Cell (IEEE-754 layout of "
+              "the bit pattern = definition bitsValue, cross-checked with Python's Fraction on every cell); the value pandas.to_numeric assigns to a token stays in Python (|read - written| "
+              "<= 0.5e-6 + 5.5 ulp, assumption 4, probed); which tokens are numbers, how numbers are printed and what a printed number denotes is inside the model")
 TECHNIQUE = "Lean 4 proof (list induction over characters, tokens, lines and blocks; generative layout grammar) + regenerated literals + exact differential correspondence"
 DESIGN_REF = "DESIGN.md section 4, C02"
